@@ -491,7 +491,9 @@ class C01Machine(TraceMachine):
         tag = "upload_stale:" + mech + ("-dir" if isdir else "-file")
         self.labels.add(tag)
         if fired[0]:
-            self.labels.add(tag + "-content-changed" + ("-old-digest-not-in-store" if old_absent else ""))
+            self.labels.add(tag + "-content-changed")
+            if old_absent:
+                self.labels.add(tag + "-content-changed-old-digest-not-in-store")
         if mech == "writer":
             self.labels.add("upload_stale:writer-" + ("every-tick" if at < 0 else "one-tick"))
 
